@@ -403,6 +403,10 @@ class Interp(object):
             if isinstance(c, PObj):
                 if name in c.fields:
                     return c.fields[name]
+                prop = self._find_property(c.cls, name, fr)
+                if prop is not None:
+                    fn, mod, cls = prop
+                    return self.call_funcdef(fn, mod, cls, obj, [], {}, None, '%s.%s' % (cls, name))
                 return BoundMethod(obj, name)
             return BoundMethod(obj, name)
         if isinstance(obj, source.ClassInfo):
@@ -1506,6 +1510,22 @@ class Interp(object):
                         return self.call_funcdef(fn, mod, cls, recv, args, kwargs, None, q2)
                 raise Undecided('call to %s without contract (and not declared inline)' % qual)
         return call_builtin_method(self, recv, name, args, kwargs, fr)
+
+    def _find_property(self, clsname, name, fr):
+        mods = []
+        if fr is not None and getattr(fr, 'mod', None) is not None:
+            mods.append(fr.mod)
+        if getattr(self, 'cur_mod', None) is not None:
+            mods.append(self.cur_mod)
+        mods += [source.load(r) for r in self.hooks.get('modules', [])]
+        for mod in mods:
+            ci = mod.classes.get(clsname)
+            if ci is None or name not in ci.methods:
+                continue
+            fn = ci.methods[name]
+            if any(isinstance(d, ast.Name) and d.id == 'property' for d in fn.decorator_list):
+                return fn, mod, ci.name
+        return None
 
     def find_method(self, clsname, name, fr, soft=False):
         mods = [fr.mod] + [source.load(r) for r in self.hooks.get('modules', [])]
